@@ -4,12 +4,41 @@ from . import structural
 from .c06 import run_scheme_corpus
 
 
+def _alias_worker(rec):
+    from .. import modelcase
+    try:
+        return modelcase.check_aliases(rec)
+    except Exception as ex:  # noqa: BLE001
+        import traceback
+        return {"compared": 0, "undefined": 0, "calls": 0}, [{"tag": "harness", "message": traceback.format_exc()[-400:], "text": ""}]
+
+
+def aliases(chk):
+    """explicit Euler 'under any of its accepted names': euler, forward_euler, forward_explicit_euler, explicit_euler"""
+    import concurrent.futures as cf
+    r = structural.run_tlc_struct(chk, ["C05_Euler"], 1, 211)
+    chk.add_tlc(r)
+    recs = r.records[: (40 if chk.tier == "quick" else 400)]
+    r.records = []
+    total = {"models": len(recs), "compared": 0, "calls": 0}
+    with cf.ProcessPoolExecutor(max_workers=chk.nproc) as ex:
+        for st, bad in ex.map(_alias_worker, recs):
+            total["compared"] += st["compared"]
+            total["calls"] += st["calls"]
+            for b in bad:
+                chk.violation(f"C05:alias:{b['tag']}:{b.get('alias', '')}:model={structural.model_sig(b.get('text', ''))}", b,
+                              f"scheme alias {b.get('alias')}: {b['tag']} " + str({k: v for k, v in b.items() if k not in ('text',)})[:200])
+    chk.replayed += len(recs)
+    chk.extra["alias_corpus"] = total
+
+
 def main(chk: core.Check, replay):
     if replay:
         return core.replay_generic(chk, replay)
     run_scheme_corpus(chk, "C05", {"explicit_euler", "generate"}, fams=[3, 4, 5] if chk.tier == "quick" else [1, 2, 3, 4, 5],
                       schemes=["explicit_euler"])
     structural.run(chk, "C05")
+    aliases(chk)
 
 
 if __name__ == "__main__":
